@@ -6,6 +6,8 @@ import (
 	"os"
 	"path/filepath"
 	"time"
+
+	"github.com/inbucket/inbucket/v3/pkg/storage"
 )
 
 // Message implements Message and contains a little bit of data about a
@@ -84,6 +86,10 @@ func (m *Message) rawPath() string {
 func (m *Message) Source() (reader io.ReadCloser, err error) {
 	file, err := os.Open(m.rawPath())
 	if err != nil {
+		if os.IsNotExist(err) {
+			// The message was removed after it had been looked up.
+			return nil, storage.ErrNotExist
+		}
 		return nil, err
 	}
 	return file, nil
